@@ -27,8 +27,11 @@ sys.path.insert(0, os.path.join(core.VERIF, "translate"))
 sys.path.insert(0, os.path.join(core.VERIF, "checks"))
 import c08 as C08  # noqa: E402
 import c16_grammar as GR  # noqa: E402
+import typesubst  # noqa: E402
 
 MODULE = "UtapModel.Props.C07"
+SMODULE = "UtapModel.Props.C07Subst"       # substitution of instantiation arguments into the type of P.x (Model/TypeSubst.lean)
+GEN_TS = os.path.join(core.LEAN_DIR, "UtapModel", "Gen", "TypeSubstCfg.lean")
 POOL = ["a", "b", "c"]
 TY = "ty"                 # declared as a *typedef* at global level; inner scopes may redeclare it as a variable / binder (the lexer's
 NAMES = POOL + [TY]       # is_type feedback must follow the same innermost-first rule as expression identifiers)
@@ -380,7 +383,13 @@ def run(ctx):
     except GR.TranslateError as ex:
         # go on with the table of the last good run: the correspondence / oracle below looks for the failing input
         ctx.proof_broken("translate/c16_grammar.py", str(ex), "correspondence and oracle of this run found no failing input")
-    ok, log = ctx.prove(MODULE, ["drv_c07", "drv_c08"])
+    try:
+        ts_text, ts_cfg = typesubst.translate(core.REPO)
+        core.write_if_changed(GEN_TS, ts_text)
+        cov["type_substitution_translated"] = ts_cfg
+    except typesubst.TranslateError as ex:
+        ctx.proof_broken("translate/typesubst.py", str(ex), "process-member queries of this run (chains of instantiation steps, named member types)")
+    ok, log = ctx.prove([MODULE, SMODULE], ["drv_c07", "drv_c08"])
     if not ok:
         ctx.log("proof broken:", core.failing_theorems(log) or log[-1500:])
     exe08, _ = C08.build_harness("asan")
@@ -537,6 +546,7 @@ def run(ctx):
         cqs += ["E<> R%d.yd0 >= 0" % i, "E<> R%d.ye0 >= 0" % i]
         cexp += [("DOTSUBST", "R%d" % i, "yd0", i % 9 + 1), ("DOTSUBST", "R%d" % i, "ye0", (i + 3) % 9 + 1)]
     models.append(({"globals": [], "templates": [], "system": [], "processes": [], "chains": [], "xml": "\n".join(cx)}, Gen(r)))
+    chain_model_index = len(models) - 1
     qmeta["q%d" % (len(models) - 1)] = (cqs, cexp)
     qcases.append(("q%d" % (len(models) - 1), "\n".join(cx), "\n".join(cqs)))
     # quantifiers over the instances of dynamic templates: `p.y` is looked up in the template of the INNERMOST binder named p
@@ -599,23 +609,32 @@ def run(ctx):
     qcases.append(("q%d" % (len(models) - 1), ln_xml, "\n".join(lq)))
     cov["identifier_length_limit"] = limit
     qtext = "".join("%s %s %s\n" % (cid, base64.b64encode(x.encode()).decode(), base64.b64encode(q.encode()).decode()) for cid, x, q in qcases)
-    rc, out, err, _ = core.run_exe(exe07, ["batch"], stdin_text=qtext, timeout=900, env=C08.ABORT_ENV)
-    if rc != 0:
-        ctx.finding("crash:" + C08.crash_site(err, rc), "c07 harness died rc=%s" % rc, {"stderr": err[-3000:]})
-    qres, cur = {}, None
-    for line in out.split("\n"):
-        if line.startswith("BEGIN "):
-            cur = line.split()[1]
-            qres[cur] = {"rc": None, "q": {}}
-        elif line.startswith("END "):
-            cur = None
-        elif cur and line.startswith("RC "):
-            qres[cur]["rc"] = line
-        elif cur and line.startswith("Q "):
-            qres[cur]["q"][int(line.split()[1])] = line.split()[2:]
+    def run_queries(exe):
+        rc, out, err, _ = core.run_exe(exe, ["batch"], stdin_text=qtext, timeout=900, env=C08.ABORT_ENV)
+        if rc != 0:
+            ctx.finding("crash:" + C08.crash_site(err, rc), "c07 harness died rc=%s" % rc, {"stderr": err[-3000:]})
+        res_, cur = {}, None
+        for line in out.split("\n"):
+            if line.startswith("BEGIN "):
+                cur = line.split()[1]
+                res_[cur] = {"rc": None, "q": {}}
+            elif line.startswith("END "):
+                cur = None
+            elif cur and line.startswith("RC "):
+                res_[cur]["rc"] = line
+            elif cur and line.startswith("Q "):
+                res_[cur]["q"][int(line.split()[1])] = line.split()[2:]
+        return res_
+    qres = run_queries(exe07)
+    # the same queries on the -O2 build: the mapping of a process is a std::map over symbol ADDRESSES, and the allocator of the sanitizer
+    # build hands out addresses in another order than the ordinary one
+    exe07p = core.build_harness(core.build_repo("plain"), "c07p", ["c07.cpp"])
+    qres_plain = run_queries(exe07p)
     qdis, nq, nq_clean = [], 0, 0
-    for cid, (qs, exp) in qmeta.items():
-        rr = qres.get(cid)
+    for build_name, qres_b in (("asan", qres), ("plain", qres_plain)):
+      n_before = len(qdis)
+      for cid, (qs, exp) in qmeta.items():
+        rr = qres_b.get(cid)
         if not rr or not rr["rc"]:
             continue
         clean = rr["rc"].endswith("errors=0")
@@ -652,6 +671,31 @@ def run(ctx):
                 d = [t for t in toks if t.startswith("DOT:%s.%s#" % (e[1], e[2]))]
                 if not d or "(CONSTANT_int_0)_(CONSTANT_int_%d)" % e[3] not in d[0]:
                     qdis.append((cid, q, "expected the argument %d substituted for the parameter in the type of %s.%s, got %s" % (e[3], e[1], e[2], toks)))
+      qdis[n_before:] = [(c_, q_, w_ + " [%s build of the library]" % build_name) for c_, q_, w_ in qdis[n_before:]]
+    # the model of expr_dot's substitution rounds (Model/TypeSubst.lean, driver op DOTTYPE) on the two-step chains: whatever the order of the
+    # mapping, the model's result is the library's type
+    dt_lines, dt_expect = [], []
+    for i in range(nchain):
+        pv, qv = i % 9 + 1, (i + 3) % 9 + 1
+        pairs = ["p=(IDENTIFIER m%d)" % i, "q=(CONSTANT int %d)" % qv, "m%d=(CONSTANT int %d)" % (i, pv)]
+        for order in (pairs, pairs[::-1], [pairs[2], pairs[0], pairs[1]]):
+            for member, par, val in (("yd0", "p", pv), ("ye0", "q", qv)):
+                dt_lines.append("DOTTYPE\t(RANGE (INT) (CONSTANT int 0) (IDENTIFIER %s))\t%s" % (par, "\t".join(order)))
+                dt_expect.append(("R%d" % i, member, "(RANGE (INT) (CONSTANT int 0) (CONSTANT int %d))" % val))
+    ndt, dtdis = 0, []
+    if os.path.exists(core.lean_exe("drv_c07")):
+        rc, out, err, _ = core.run_exe(core.lean_exe("drv_c07"), [], stdin_text="\n".join(dt_lines) + "\n")
+        chain_res = qres.get("q%d" % chain_model_index, {"q": {}})["q"]
+        for k, ((pn, member, want), got) in enumerate(zip(dt_expect, out.split("\n"))):
+            ndt += 1
+            real = [t for qi in chain_res for t in chain_res[qi] if t.startswith("DOT:%s.%s#" % (pn, member))]
+            real_ok = bool(real) and want.replace(" ", "_") in real[0]
+            if got != want or not real_ok:
+                dtdis.append((dt_lines[k], got, want, real[:1]))
+    cov["dot_type_model_cases"] = ndt
+    if dtdis:
+        ctx.proof_broken("correspondence:type-substitution-model", "the substitution model and the library disagree on the type of a process member "
+                         "(%d of %d): %r" % (len(dtdis), ndt, dtdis[0]), "process-member queries of this run")
     cov["query_cases"] = nq
     cov["process_member_queries_on_accepted_models"] = nq_clean
     cov["query_disagreements"] = len(qdis)
